@@ -582,7 +582,7 @@ impl BuildJob<'_> {
                     log_err!("{:?}: rename {:?}: {}", t, tmp_name, e);
                     rv = EXIT_BUILD_JOB_ERROR;
                 }
-            } else {
+            } else if rv == EXIT_SUCCESS {
                 // no output generated at all; that's ok
 
                 // TODO(maybe): Remove EISDIR/EPERM exception or remove directory?
